@@ -2,9 +2,10 @@
 
    * [emit par e] transcribes OperatorNode.emit / OperandNode.emit /
      RangeNode.emit / FunctionNode.emit (excelformula.py 267-519) as a concrete
-     Python syntax tree [pycst]; [par] = "the node has a parent that is not a
-     FunctionNode" (then operator nodes are wrapped in parentheses; a prefix
-     operator is emitted BARE).  [pyflat] is the text; [code e] is what
+     Python syntax tree [pycst]; the context says what the parent node is: none
+     or a FunctionNode (no parentheses), an operator (operator nodes are wrapped
+     in parentheses, a prefix operator is emitted bare), the operator ^ (a
+     prefix operator is wrapped too).  [pyflat] is the text; [code e] is what
      ExcelFormula.python_code returns.  op_map / func_map are the GENERATED
      tables of Gen/excelformula.v.
    * Python's expression grammar for the emitted sub-language: [PyWF] =
@@ -36,7 +37,8 @@ Inductive pycst :=
 | PTuple1 (t : pycst)                 (* "(" t ",)" *)
 | PSeq (items : list pycst)           (* "a, b" — not an expression by itself *)
 | PRefOp (o : pyop) (l r : pycst)     (* _R_(str(<l> op <r>)) with _R_/_C_ renamed _REF_ *)
-| PRaw (s : list Z).                  (* text produced by string surgery (ROW/COLUMN) *)
+| PRaw (s : list Z)                   (* text outside the model *)
+| PRenamed (t : pycst).                (* the text of t with _R_/_C_ renamed _REF_ (ROW/COLUMN) *)
 
 Definition pyop_text (o : pyop) : list Z :=
   match o with
@@ -70,6 +72,7 @@ Fixpoint pyflat (t : pycst) : list Z :=
       zs "_R_" ++ to_ref (zs "(str(" ++ pyflat l ++ zs " " ++ pyop_text o ++ zs " " ++ pyflat r
                           ++ zs "))")
   | PRaw s => s
+  | PRenamed t => to_ref (pyflat t)
   end.
 
 (* ------------------------------------------------------------ tables *)
@@ -126,9 +129,21 @@ Definition strip_quotes (v : list Z) : list Z :=
   | [] => v
   end.
 
-(* OperandNode.emit for TEXT / ERROR tokens *)
+(* value.replace(backslash, two backslashes) *)
+Fixpoint esc_bs (s : list Z) : list Z :=
+  match s with [] => [] | c :: s' => if c =? bs then bs :: bs :: esc_bs s' else c :: esc_bs s' end.
+(* value.replace(LF, backslash n).replace(CR, backslash r) *)
+Fixpoint esc_nl (s : list Z) : list Z :=
+  match s with
+  | [] => []
+  | c :: s' => if c =? 10 then bs :: 110 :: esc_nl s'
+               else if c =? 13 then bs :: 114 :: esc_nl s' else c :: esc_nl s'
+  end.
+
+(* OperandNode.emit for TEXT / ERROR tokens: backslashes doubled first, then
+   doubled quotes escaped, then line breaks *)
 Definition emit_text (v : list Z) : list Z :=
-  if (2 <? zlen v) then dq :: repl_qq (strip_quotes v) ++ [dq] else v.
+  if (2 <? zlen v) then dq :: esc_nl (repl_qq (esc_bs (strip_quotes v))) ++ [dq] else v.
 
 Definition lower (s : list Z) : list Z := map ascii_lower s.
 Definition upper (s : list Z) : list Z := map ascii_upper s.
@@ -211,26 +226,47 @@ Definition handler_names : list (list Z) :=
    zs "offset"; zs "indirect"; zs "subtotal"; zs "map"].
 Definition is_handler (f : list Z) : bool := existsb (str_eqb f) handler_names.
 
-(* _build_reference for at least one child *)
-Definition build_reference (child : list Z) : list Z :=
-  let a := to_ref child in
-  if str_prefix (zs "_REF_(str(") a then firstn (List.length a - 12)%nat (skipn 10 a) else a.
+(* _build_reference for at least one child: the child's text with _R_/_C_
+   renamed _REF_; when that starts with "_REF_(str(" (the child is a reference
+   operator node, emitted without parentheses below a function) the wrapper
+   _REF_(str( ... )) is cut off: address[10:-2] *)
+Definition build_reference (t : pycst) : pycst :=
+  match t with
+  | PRefOp o l r => PRenamed (PBin o l r)
+  | _ => PRenamed t
+  end.
+
+(* the parent of the node being emitted: none or a FunctionNode / an operator
+   other than ^ / the operator ^ *)
+Inductive pctx := CtxTop | CtxOp | CtxPow.
+Definition is_par (c : pctx) : bool := match c with CtxTop => false | _ => true end.
 
 Definition wrap (par : bool) (t : pycst) : pycst := if par then PParen t else t.
 
-Fixpoint emit (par : bool) (e : expr) : pycst :=
+Fixpoint emit (c : pctx) (e : expr) : pycst :=
   match e with
   | EOperand k v => emit_operand k v
-  | EPre a => PNeg (emit true a)                       (* bare: no parentheses *)
-  | EPost a => wrap par (PBin PDiv (emit true a) (PAtom (zs "100")))
+  | EPre a =>
+      (* a prefix operator is emitted bare, except below ^ (Python binds **
+         tighter than a unary minus on its left) *)
+      match c with
+      | CtxPow => PParen (PNeg (emit CtxOp a))
+      | _ => PNeg (emit CtxOp a)
+      end
+  | EPost a => wrap (is_par c) (PBin PDiv (emit CtxOp a) (PAtom (zs "100")))
   | EBin o l r =>
       match o with
-      | OIsect => wrap par (PRefOp PBitAnd (emit true l) (emit true r))
-      | OColon => wrap par (PRefOp PPow (emit true l) (emit true r))
-      | OUnion => wrap par (PSeq [emit true l; emit true r])
+      | OIsect => wrap (is_par c) (PRefOp PBitAnd (emit CtxOp l) (emit CtxOp r))
+      | OColon => wrap (is_par c) (PRefOp PPow (emit CtxOp l) (emit CtxOp r))
+      | OUnion => wrap (is_par c) (PSeq [emit CtxOp l; emit CtxOp r])
+      | OPow =>
+          match pyop_of o with
+          | Some p => wrap (is_par c) (PBin p (emit CtxPow l) (emit CtxPow r))
+          | None => PRaw []
+          end
       | _ =>
           match pyop_of o with
-          | Some p => wrap par (PBin p (emit true l) (emit true r))
+          | Some p => wrap (is_par c) (PBin p (emit CtxOp l) (emit CtxOp r))
           | None => PRaw []
           end
       end
@@ -240,14 +276,14 @@ Fixpoint emit (par : bool) (e : expr) : pycst :=
       else if str_eqb f (zs "true") then PAtom (zs "True")
       else if str_eqb f (zs "false") then PAtom (zs "False")
       else if str_eqb f (zs "array") then
-        PTuple1 (PSeq (map (fun a => PTuple1 (emit false a)) args))
-      else if str_eqb f (zs "arrayrow") then PSeq (map (emit false) args)
+        PTuple1 (PSeq (map (fun a => PTuple1 (emit CtxTop a)) args))
+      else if str_eqb f (zs "arrayrow") then PSeq (map (emit CtxTop) args)
       else if str_eqb f (zs "row") || str_eqb f (zs "column") then
         match args with
-        | a :: _ => PCall f [PRaw (build_reference (pyflat (emit false a)))]
+        | a :: _ => PCall f [build_reference (emit CtxTop a)]
         | [] => PRaw []
         end
-      else PCall (mapped_func f) (map (emit false) args)
+      else PCall (mapped_func f) (map (emit CtxTop) args)
   end.
 
 (* what the emitter model covers (outside: OFFSET / INDIRECT / SUBTOTAL / a
@@ -268,7 +304,7 @@ Fixpoint modelled (e : expr) : bool :=
   end.
 
 (* ExcelFormula.python_code *)
-Definition code (e : expr) : list Z := pyflat (emit false e).
+Definition code (e : expr) : list Z := pyflat (emit CtxTop e).
 
 (* ------------------------------------------------ Python's grammar (sub-language) *)
 Definition pylevel (o : pyop) : Z :=
@@ -304,7 +340,7 @@ Fixpoint pywfb (t : pycst) : bool :=
              else (pylevel o <=? pytop l) && (pylevel o <? pytop r)
       end
   | PCall _ args => forallb (fun a => pywfb a && (1 <=? pytop a)) args
-  | PTuple1 _ | PSeq _ | PRefOp _ _ _ | PRaw _ => false
+  | PTuple1 _ | PSeq _ | PRefOp _ _ _ | PRaw _ | PRenamed _ => false
   end.
 Definition PyWF (t : pycst) : Prop := pywfb t = true.
 
@@ -369,19 +405,6 @@ Fixpoint arith (e : expr) : Prop :=
        \/ func_key name = zs "true" \/ func_key name = zs "false") /\
       (fix al (l : list expr) : Prop :=
          match l with [] => True | a :: l' => arith a /\ al l' end) args
-  end.
-
-(* the defect: a prefix minus directly as the left operand of ^ *)
-Fixpoint no_neg_pow_left (e : expr) : Prop :=
-  match e with
-  | EOperand _ _ => True
-  | EPre a | EPost a => no_neg_pow_left a
-  | EBin o l r =>
-      (match o, l with OPow, EPre _ => False | _, _ => True end) /\
-      no_neg_pow_left l /\ no_neg_pow_left r
-  | EFunc _ args =>
-      (fix al (l : list expr) : Prop :=
-         match l with [] => True | a :: l' => no_neg_pow_left a /\ al l' end) args
   end.
 
 (* ------------------------------------------------------------ literals *)
